@@ -900,7 +900,8 @@ AnyP::Uri::addRelativePath(const char *relUrl)
 
     // TODO: Handle . and .. segment normalization
 
-    const auto lastSlashPos = path_.rfind('/');
+    // path_ also holds the query; the merge base is the path proper (RFC 3986 section 5.2.3)
+    const auto lastSlashPos = path_.rfind('/', path_.find('?'));
     // TODO: To optimize and simplify, add and use SBuf::replace().
     const auto relUrlLength = strlen(relUrl);
     if (lastSlashPos == SBuf::npos) {
